@@ -433,6 +433,15 @@ def call_builtin_method(I, recv, name, args, kwargs, fr):
     if isinstance(recv, NodeV) and name == '_destroy':
         return None
     if isinstance(recv, (str, bytes)):
+        if name == 'join' and recv in ('', b'') and len(args) == 1:
+            a0 = args[0]
+            c0 = I.ctx.cell(a0) if isinstance(a0, Ref) else a0
+            if hasattr(c0, 'joined'):
+                return c0.joined(I)
+            if isinstance(c0, PList) and all(hasattr(x, 'join_part') for x in c0.items) and c0.items:
+                return c0.items[0].join_parts(I, c0.items)
+            if isinstance(c0, PList) and all(isinstance(x, type(recv)) for x in c0.items):
+                return recv.join(c0.items)
         if name == 'encode' and isinstance(recv, str):
             return recv.encode(*args)
         if name == 'upper':
